@@ -233,8 +233,9 @@ theorem C16_int_from_float_range (b : Bits) : i64Min ≤ intFromFloat b ∧ intF
 
 /-! ## `floor`, `ceil`, `round` -/
 
-/-- the integer the three modes pick, stated with inequalities on the exact rational `n/d`:
-    floor is the largest integer below or at it, ceil the smallest at or above it -/
+/-- the integer `floor` and `ceil` pick, stated with inequalities on the exact rational `n/d`
+    (`d > 0`): floor is the largest integer below or at it, ceil the smallest at or above it
+    (`round` is characterised separately in `C16_roundInt_round_spec`) -/
 theorem C16_roundInt_spec (n : Int) (d : Nat) (hd : 0 < d) :
     (roundInt .floor n d * d ≤ n ∧ n < (roundInt .floor n d + 1) * d) ∧
     ((roundInt .ceil n d - 1) * d < n ∧ n ≤ roundInt .ceil n d * d) := by
@@ -255,6 +256,46 @@ theorem C16_roundInt_spec (n : Int) (d : Nat) (hd : 0 < d) :
   have m3 : (-q') * (d : Int) = -((d : Int) * q') := by rw [Int.neg_mul, Int.mul_comm]
   have m4 : (-q' - 1) * (d : Int) = -((d : Int) * q') - d := by rw [Int.sub_mul, m3]; omega
   refine ⟨⟨by omega, by omega⟩, ⟨by omega, by omega⟩⟩
+
+/-- `round` picks the integer nearest to `n/d` (`d > 0`), a tie going away from zero:
+    `|r - n/d| ≤ 1/2`, with the half-way point included on the far side of zero only -/
+theorem C16_roundInt_round_spec (n : Int) (d : Nat) (hd : 0 < d) :
+    (0 ≤ n → (2 * roundInt .round n d - 1) * d ≤ 2 * n ∧ 2 * n < (2 * roundInt .round n d + 1) * d) ∧
+    (n < 0 → (2 * roundInt .round n d - 1) * d < 2 * n ∧ 2 * n ≤ (2 * roundInt .round n d + 1) * d) := by
+  have hd' : (0 : Int) < 2 * d := by omega
+  constructor
+  · intro hn
+    have e1 := Int.mul_ediv_add_emod (2 * n + d) (2 * d)
+    have e2 := Int.emod_nonneg (2 * n + d) (show (2 * (d : Int)) ≠ 0 by omega)
+    have e3 := Int.emod_lt_of_pos (2 * n + d) hd'
+    have hr : roundInt .round n d = (2 * n + d) / (2 * d) := by simp [roundInt, hn]
+    rw [hr]
+    generalize (2 * n + (d : Int)) / (2 * d) = q at *
+    generalize (2 * n + (d : Int)) % (2 * d) = r at *
+    have m0 : 2 * (d : Int) * q = 2 * ((d : Int) * q) := Int.mul_assoc _ _ _
+    have m1 : (2 * q - 1) * (d : Int) = 2 * ((d : Int) * q) - d := by
+      rw [Int.sub_mul, Int.mul_assoc, Int.mul_comm q]; omega
+    have m2 : (2 * q + 1) * (d : Int) = 2 * ((d : Int) * q) + d := by
+      rw [Int.add_mul, Int.mul_assoc, Int.mul_comm q]; omega
+    generalize (d : Int) * q = X at *
+    omega
+  · intro hn
+    have e1 := Int.mul_ediv_add_emod (2 * -n + d) (2 * d)
+    have e2 := Int.emod_nonneg (2 * -n + d) (show (2 * (d : Int)) ≠ 0 by omega)
+    have e3 := Int.emod_lt_of_pos (2 * -n + d) hd'
+    have hr : roundInt .round n d = -((2 * -n + d) / (2 * d)) := by
+      have : ¬ n ≥ 0 := by omega
+      simp [roundInt, this]
+    rw [hr]
+    generalize (2 * -n + (d : Int)) / (2 * d) = q at *
+    generalize (2 * -n + (d : Int)) % (2 * d) = r at *
+    have m0 : 2 * (d : Int) * q = 2 * ((d : Int) * q) := Int.mul_assoc _ _ _
+    have m1 : (2 * -q - 1) * (d : Int) = -(2 * ((d : Int) * q)) - d := by
+      rw [Int.sub_mul, Int.mul_assoc, Int.neg_mul, Int.mul_comm q]; omega
+    have m2 : (2 * -q + 1) * (d : Int) = -(2 * ((d : Int) * q)) + d := by
+      rw [Int.add_mul, Int.mul_assoc, Int.neg_mul, Int.mul_comm q]; omega
+    generalize (d : Int) * q = X at *
+    omega
 
 example : roundInt .floor (-7) 2 = -4 ∧ roundInt .ceil (-7) 2 = -3 ∧ roundInt .round (-7) 2 = -4 ∧
     roundInt .round 5 2 = 3 ∧ roundInt .round 1 4 = 0 := by decide
